@@ -43,6 +43,13 @@ Full statement / proved / missing
                          literals (`C18_default_exact`); without it the syntactic statement is false
                          (`C18_default_zero_sign`, `C18_defaults_restored_full_fails`) although the struct that comes back
                          is deeply equal — full statement kept as `C18_struct_nested_full` (not proved).
+* tags `type=>T` (the attribute's type is the declared one: `Field.aty`; `C18_attr_type_derived` when there is none) and
+                         `kind=>constant | derived | given_or_derived | reference`: constants and derived attributes
+                         are not part of an instance (`Field.stored`): `C18_struct_stored` — the struct that comes back
+                         has the Go zero value in those fields (`C18_constant_field_zeroed`), so `C18_struct_nested`
+                         demands `UnstoredZero`; given_or_derived is optional (after the required ones, omitted when
+                         undef).  Inconsistent tags are derivation errors the model reports by issue code (`deriveErr`,
+                         regression anchors below); known finding `C18_given_or_derived_pointer`.
 * `C18_struct`         — the attribute-list form (tags `name=>`, `value=>` = declared default): `px.New(T, InitHash(wrap s))`, `px.New(T,
                          full hash)` (named dispatch → PositionalFromHash cuts trailing defaults → setValues puts them
                          back), `px.New(T, attribute values…)` and the same without the trailing defaults (positional
@@ -52,8 +59,9 @@ Full statement / proved / missing
 * missing (partial): `reflect` itself is the model's parameter (trusted base) — MakeSlice, MakeMap, SetMapIndex, Set,
   truncating SetInt/SetUint, float32 conversion `r32` (assumed exact on float32 values: hypothesis `hr`); struct types
   that are not registered or derived anonymously, the registry-mapped path, an embedded POINTER to a struct and fields
-  that shadow a field of an embedded struct (two new known findings, implementation only), struct tags other than
-  `name` / `value`, a bare interface{} field (Runtime fall-back value), interface{} holding containers, map keys other
+  that shadow a field of an embedded struct (two new known findings, implementation only), tag forms outside the
+  grammar the driver reads (e.g. `type=>` with a type alias, Enum, Pattern …), non-puppet tags (annotations only),
+  a bare interface{} field (Runtime fall-back value), interface{} holding containers, map keys other
   than integers / strings / booleans — all of these are only tested on the implementation (ops `@refl`/`@reflraw`/
   `@reflanon`/`@obj`/`@objreg`).
 -/
@@ -242,7 +250,7 @@ theorem C18_parent_accepts (S P : GoTy) (v : GoVal) (hs : isStruct S = true) (hp
 /-- embedding: the attributes of the child are the parent's (recursively) and its own; reading them through Go's field
     promotion and writing them back — the parent's into the embedded struct — is the identity on well-typed structs -/
 theorem C18_promotion (S : GoTy) (v : GoVal) (hs : isStruct S = true) (hv : hasType S v = true) :
-    (flatVals S v).length = (attrsOf S).length ∧ rebuild S (flatVals S v) = v ∧
+    (flatVals S v).length = (attrsOf S).length ∧ (UnstoredZero S v → rebuild S (flatVals S v) = v) ∧
     ∀ fv ∈ objFVs S v, hasType fv.1.ty fv.2 = true :=
   ⟨(obj_typed S v hv).1.symm, rebuild_flat S v hs hv, (obj_typed S v hv).2⟩
 
@@ -250,20 +258,25 @@ theorem C18_promotion (S : GoTy) (v : GoVal) (hs : isStruct S = true) (hv : hasT
     attribute and Go names along the chain of embedded parents, every attribute a modelled field), well typed, and every
     attribute value inside both halves of the bridge property as a FIELD (`via = false`); attributes whose type is a struct,
     a pointer to one, a slice / map of them … are inside by `C18_struct_value` -/
-def StructOK (S : GoTy) (v : GoVal) : Prop :=
+def StructOK0 (S : GoTy) (v : GoVal) : Prop :=
   isStruct S = true ∧ structWF S = true ∧ hasType S v = true ∧
-  ∀ fv ∈ objFVs S v, RtOK false fv.1.ty fv.2 = true ∧ TaOK false fv.1.ty fv.2 = true ∧ DefaultExact fv.1 (fieldVal fv)
+  ∀ fv ∈ objFVs S v, RtOK false fv.1.ty fv.2 = true ∧ inst fv.1.aty (fieldVal fv) = true ∧ DefaultExact fv.1 (fieldVal fv)
+
+/-- … and every field tagged `kind=>constant` / `kind=>derived` (such attributes are not part of an instance's state:
+    `setValues` never touches the field) holds the Go zero value -/
+def StructOK (S : GoTy) (v : GoVal) : Prop := StructOK0 S v ∧ UnstoredZero S v
 
 /-- **structs as terms** (nested structs, pointers to structs, slices and maps of structs, embedded parents at any depth,
     embedded fields that are not the parent, tags `name=>` / `value=>`): the object type derived from the struct type
     constructs — from the init hash, from the hash with every attribute, positionally with and without the trailing
     defaults — an instance that converts back to the SAME struct value, the parent's attributes landing in the embedded
     parent. -/
-theorem C18_struct_nested (r32 : Nat → Nat) (hr : R32Exact r32) (S : GoTy) (v : GoVal) (h : StructOK S v) :
-    newNamedS r32 S (initHash (objFVs S v)) = some v ∧
-    newNamedS r32 S (fullHash (objFVs S v)) = some v ∧
-    newPosS r32 S ((attrOrder (·.1) (objFVs S v)).map fieldVal) = some v ∧
-    newPosS r32 S (trimDefaults (attrOrder id (attrsOf S)) ((attrOrder (·.1) (objFVs S v)).map fieldVal)) = some v := by
+theorem C18_struct_stored (r32 : Nat → Nat) (hr : R32Exact r32) (S : GoTy) (v : GoVal) (h : StructOK0 S v) :
+    newNamedS r32 S (initHash (objFVs S v)) = some (rebuild S (flatVals S v)) ∧
+    newNamedS r32 S (fullHash (objFVs S v)) = some (rebuild S (flatVals S v)) ∧
+    newPosS r32 S ((attrOrder (·.1) (objFVs S v)).map fieldVal) = some (rebuild S (flatVals S v)) ∧
+    newPosS r32 S (trimDefaults (attrOrder id (attrsOf S)) ((attrOrder (·.1) (objFVs S v)).map fieldVal)) =
+      some (rebuild S (flatVals S v)) := by
   obtain ⟨hs, hw, hv, hok⟩ := h
   obtain ⟨hl, ht⟩ := obj_typed S v hv
   have e1 : (objFVs S v).map (·.1) = attrsOf S := zipFG_fst _ _ hl
@@ -271,14 +284,90 @@ theorem C18_struct_nested (r32 : Nat → Nat) (hr : R32Exact r32) (S : GoTy) (v 
   simp only [structWF, Bool.and_eq_true, List.all_eq_true] at hw
   have hn : ((objFVs S v).map (·.1.name)).Nodup := by
     have : (objFVs S v).map (·.1.name) = (attrsOf S).map (·.name) := by rw [← e1, List.map_map]; rfl
-    rw [this]; exact nodupS_nodup _ hw.1.1
+    rw [this]; exact nodupS_nodup _ hw.1.2
   have hf : ∀ fv ∈ objFVs S v, FieldOK fv := by
     intro fv hfv
     have hm : fv.1 ∈ attrsOf S := by rw [← e1]; exact List.mem_map.mpr ⟨fv, hfv, rfl⟩
     exact ⟨hw.2 fv.1 hm, ht fv hfv, (hok fv hfv).1, (hok fv hfv).2.1, (hok fv hfv).2.2⟩
   obtain ⟨c1, c2, c3, c4⟩ := C18_struct r32 hr (objFVs S v) hn hf
   rw [e1, e2] at c1 c2 c3 c4
-  simp only [newNamedS, newPosS, c1, c2, c3, c4, Option.map_some, rebuild_flat S v hs hv, and_self]
+  simp only [newNamedS, newPosS, c1, c2, c3, c4, Option.map_some, and_self]
+
+theorem C18_struct_nested (r32 : Nat → Nat) (hr : R32Exact r32) (S : GoTy) (v : GoVal) (h : StructOK S v) :
+    newNamedS r32 S (initHash (objFVs S v)) = some v ∧
+    newNamedS r32 S (fullHash (objFVs S v)) = some v ∧
+    newPosS r32 S ((attrOrder (·.1) (objFVs S v)).map fieldVal) = some v ∧
+    newPosS r32 S (trimDefaults (attrOrder id (attrsOf S)) ((attrOrder (·.1) (objFVs S v)).map fieldVal)) = some v := by
+  have e := rebuild_flat S v h.1.1 h.1.2.2.1 h.2
+  have := C18_struct_stored r32 hr S v h.1
+  rwa [e] at this
+
+/-- tags `type=>` / `kind=>`: when the tag declares neither a type nor the kind given_or_derived nor `value=>undef`, the
+    attribute's type is the one derived from the Go type, so the type-acceptance half of the bridge (`TaOK`, for a field:
+    `via = false`) gives the `inst` hypothesis of `StructOK0` -/
+theorem C18_attr_type_derived (n : String) (tg : FTag) (ft : GoTy) (v : GoVal)
+    (h1 : tg.typ = none) (h2 : tg.kind ≠ .givenOrDerived) (h3 : tg.dflt ≠ some .undef)
+    (hm : Modelled ft = true) (hv : hasType ft v = true) (ht : TaOK false ft v = true) :
+    (fieldOfDecl n tg ft).aty = typeOf ft ∧ inst (fieldOfDecl n tg ft).aty (fieldVal (fieldOfDecl n tg ft, v)) = true := by
+  have ha : (fieldOfDecl n tg ft).aty = typeOf ft := by
+    have hk : (tg.kind == Kind.givenOrDerived) = false := by simpa using h2
+    have hd : (tg.dflt == some Lit.undef) = false := by simpa using h3
+    simp [fieldOfDecl, tagType, h1, hk, hd]
+  exact ⟨ha, accepts_of_TaOK (fv := (fieldOfDecl n tg ft, v)) ha hm hv ht⟩
+
+/-- `kind=>constant`: the field is not part of an instance's state — `struct{A int8 "kind=>constant, value=>5"; B string}`
+    holding A = 5 comes back with A = 0 (the Go zero value; the harness marks such inputs n/a) -/
+theorem C18_constant_field_zeroed (r32 : Nat → Nat) :
+    let S : GoTy := .scons "A" { kind := .constant, dflt := some (.int 5) } (.int 8) (.scons "B" {} .string .snil)
+    structWF S = true ∧ hasType S (.st [.int 5, .str "a"]) = true ∧
+    newNamedS r32 S (initHash (objFVs S (.st [.int 5, .str "a"]))) = some (.st [.int 0, .str "a"]) :=
+  ⟨by decide, by decide, by rfl⟩
+
+/-- known finding C18-given-or-derived-on-pointer: `kind=>given_or_derived` (likewise `derived`) on a field that can be
+    nil: ReflectFieldTags adds the implicit `value => undef` of the Optional type, which attribute.go then refuses for
+    these kinds — the type cannot be derived although the tag declares no value -/
+theorem C18_given_or_derived_pointer :
+    deriveErr (.scons "A" { kind := .givenOrDerived } (.ptr (.int 8)) .snil) = some "PCORE_ILLEGAL_KIND_VALUE_COMBINATION" ∧
+    deriveErr (.scons "A" { kind := .derived } (.ptr (.int 8)) .snil) = some "PCORE_ILLEGAL_KIND_VALUE_COMBINATION" ∧
+    deriveErr (.scons "A" { kind := .givenOrDerived } (.int 8) .snil) = none := by decide
+
+/-! regression anchors: what deriving the object type reports for tags that are inconsistent in themselves -/
+example : deriveErr (.scons "A" { dflt := some .undef } (.int 8) .snil) = some "PCORE_IMPOSSIBLE_OPTIONAL" := by decide
+example : deriveErr (.scons "A" { typ := some (.opt .str) } .string .snil) = some "PCORE_IMPOSSIBLE_OPTIONAL" := by decide
+example : deriveErr (.scons "A" { dflt := some (.int 300) } (.int 8) .snil) = some "PCORE_TYPE_MISMATCH" := by decide
+example : deriveErr (.scons "A" { dflt := some (.int 1) } (.float 64) .snil) = some "PCORE_TYPE_MISMATCH" := by decide
+example : deriveErr (.scons "A" { typ := some (.int 0 10), dflt := some (.int 11) } (.int 8) .snil) = some "PCORE_TYPE_MISMATCH" := by
+  decide
+example : deriveErr (.scons "A" { kind := .constant } (.int 8) .snil) = some "PCORE_CONSTANT_REQUIRES_VALUE" := by decide
+example : deriveErr (.scons "A" { kind := .derived, dflt := some (.int 3) } (.int 8) .snil) =
+    some "PCORE_ILLEGAL_KIND_VALUE_COMBINATION" := by decide
+/-- ImpossibleOptional (raised while the initializer is assembled) wins over an error of an earlier attribute -/
+example : deriveErr (.scons "A" { kind := .constant } (.int 8) (.scons "B" { dflt := some .undef } (.int 8) .snil)) =
+    some "PCORE_IMPOSSIBLE_OPTIONAL" := by decide
+/-- a clash with an attribute of the embedded parent: never derived with `override => true`; final when the parent's is a constant -/
+example : deriveErr (.scons "Base" { anon := true } (.scons "PA" {} (.int 8) .snil) (.scons "B" { attr := some "pA" } .string .snil)) =
+    some "PCORE_OVERRIDE_IS_MISSING" := by decide
+example : deriveErr (.scons "Base" { anon := true } (.scons "PC" { kind := .constant, dflt := some (.int 5) } (.int 8) .snil)
+    (.scons "B" { attr := some "pC" } .string .snil)) = some "PCORE_OVERRIDE_OF_FINAL" := by decide
+
+/-- non-vacuity for declared types and kinds: `struct{ A int8 "type=>Integer[0,10]"; B *string "type=>Optional[String]";
+    C int16 "kind=>given_or_derived"; D bool "kind=>reference, value=>true"; K uint8 "kind=>constant, value=>7" (zero);
+    X []int8 "type=>Any" }` -/
+def sampleKinds : GoTy :=
+  .scons "A" { typ := some (.int 0 10) } (.int 8)
+  (.scons "B" { typ := some (.opt .str) } (.ptr .string)
+  (.scons "C" { kind := .givenOrDerived } (.int 16)
+  (.scons "D" { kind := .reference, dflt := some (.bool true) } .bool
+  (.scons "K" { kind := .constant, dflt := some (.int 7) } (.uint 8)
+  (.scons "X" { typ := some .any } (.slice (.int 8)) .snil)))))
+def sampleKindsVal : GoVal := .st [.int 10, .nil, .int (-3), .bool true, .int 0, .slice [.int 1]]
+example : StructOK sampleKinds sampleKindsVal :=
+  ⟨⟨by decide, by decide, by decide,
+    fun fv h => fieldChk_ok (List.all_eq_true.mp (by decide : (objFVs sampleKinds sampleKindsVal).all fieldChk = true) fv h)⟩,
+   by simp [UnstoredZero, TailZero, sampleKinds, sampleKindsVal, fieldOfDecl, Field.stored, isStruct, zeroOf]⟩
+example : (attrsOf sampleKinds).map (·.name) = ["a", "b", "c", "d", "x"] := by decide
+example : initHash (objFVs sampleKinds sampleKindsVal) =
+    [(.str "a", .int 10), (.str "x", .arr [.int 1]), (.str "c", .int (-3))] := by rfl
 
 /-- the struct theorems for deep equality instead of identity, WITHOUT `DefaultExact` — the property as stated (what
     comes back is `reflect.DeepEqual` to the original: `goEq`).  Not proved: it needs `reflectTo` / `rebuild` to respect
@@ -288,8 +377,9 @@ theorem C18_struct_nested (r32 : Nat → Nat) (hr : R32Exact r32) (S : GoTy) (v 
 def C18_struct_nested_full : Prop :=
   ∀ (r32 : Nat → Nat), R32Exact r32 → ∀ (S : GoTy) (v : GoVal),
     isStruct S = true → structWF S = true → hasType S v = true →
-    (∀ fv ∈ objFVs S v, RtOK false fv.1.ty fv.2 = true ∧ TaOK false fv.1.ty fv.2 = true) →
-    ∃ back, newNamedS r32 S (initHash (objFVs S v)) = some back ∧ goEq back v = true
+    (∀ fv ∈ objFVs S v, RtOK false fv.1.ty fv.2 = true ∧ inst fv.1.aty (fieldVal fv) = true) →
+    ∃ back, newNamedS r32 S (initHash (objFVs S v)) = some back ∧
+      goEq back (rebuild S (flatVals S v)) = true   -- `rebuild ∘ flatVals` zeroes the constant / derived fields
 
 /-- `DefaultExact` is automatic for every declared default that is an exact literal (`Lit.exact`: integers, strings,
     booleans, undef, floats other than ±0, arrays of those, hashes of one entry) -/
@@ -310,19 +400,10 @@ def sampleDefaults : GoTy :=
 def sampleDefaultsVal : GoVal :=
   .st [.flt 0x3FF8000000000000, .slice [.int 1, .int 2], .map [(.str "k", .bool true)], .nil, .ptr (.arr [.int 7, .int 8]),
        .flt 0x4004000000000000]
-example : StructOK sampleDefaults sampleDefaultsVal := by
-  refine ⟨by decide, by decide, by decide, ?_⟩
-  intro fv hfv
-  simp only [sampleDefaults, sampleDefaultsVal, objFVs, attrsOf, declFields, flatVals, isStruct,
-    fieldOfDecl, zipFG, List.mem_cons, List.not_mem_nil, or_false, Bool.false_and,
-    Bool.false_eq_true, if_false] at hfv
-  rcases hfv with rfl | rfl | rfl | rfl | rfl | rfl
-  · exact ⟨by decide, by decide, defaultExact_of_exact (by decide) _⟩
-  · exact ⟨by decide, by decide, defaultExact_of_exact (by decide) _⟩
-  · exact ⟨by decide, by decide, defaultExact_of_exact (by decide) _⟩
-  · exact ⟨by decide, by decide, defaultExact_of_exact (by decide) _⟩
-  · exact ⟨by decide, by decide, defaultExact_of_exact (by decide) _⟩
-  · exact ⟨by decide, by decide, fun h => by simp [Field.isDefault, Field.dlit, fieldVal, wrap, wrapScalar, litEq, fEq] at h⟩
+example : StructOK sampleDefaults sampleDefaultsVal :=
+  ⟨⟨by decide, by decide, by decide,
+    fun fv h => fieldChk_ok (List.all_eq_true.mp (by decide : (objFVs sampleDefaults sampleDefaultsVal).all fieldChk = true) fv h)⟩,
+   unstoredZero_of_allStored _ _ (by decide)⟩
 example : initHash (objFVs sampleDefaults sampleDefaultsVal) = [(.str "z", .flt 0x4004000000000000)] := by rfl
 
 /-- non-vacuity: `struct{ Base struct{ PID uint16 "value=>8080"; PL []string }; Name string; Addr *struct{Zip int32};
@@ -337,13 +418,10 @@ def sampleNested : GoTy :=
 def sampleNestedVal : GoVal :=
   .st [.st [.int 8080, .slice [.str "x"]], .str "n", .ptr (.st [.int (-5)]), .slice [.st [.str "k"]], .st [.bool true]]
 example : Modelled sampleNested = true ∧ (structsIn sampleNested).all structWF = true := by decide
-example : StructOK sampleNested sampleNestedVal := by
-  refine ⟨by decide, by decide, by decide, ?_⟩
-  intro fv hfv
-  simp only [sampleNested, sampleNestedVal, objFVs, attrsOf, declFields, flatVals, isStruct, Bool.and_self, if_true,
-    fieldOfDecl, zipFG, List.cons_append, List.nil_append, List.mem_cons, List.not_mem_nil, or_false,
-    Bool.false_eq_true, if_false] at hfv
-  rcases hfv with rfl | rfl | rfl | rfl | rfl | rfl <;> exact ⟨by decide, by decide, defaultExact_of_exact (by decide) _⟩
+example : StructOK sampleNested sampleNestedVal :=
+  ⟨⟨by decide, by decide, by decide,
+    fun fv h => fieldChk_ok (List.all_eq_true.mp (by decide : (objFVs sampleNested sampleNestedVal).all fieldChk = true) fv h)⟩,
+   unstoredZero_of_allStored _ _ (by decide)⟩
 example : (attrsOf sampleNested).map (·.name) = ["pID", "pL", "label", "addr", "tags", "mix"] := by decide
 example : initHash (objFVs sampleNested sampleNestedVal) =
     [(.str "pL", .arr [.str "x"]), (.str "label", .str "n"), (.str "tags", .arr [.obj (.scons "K" {} .string .snil) false (.st [.str "k"])]),
